@@ -150,6 +150,10 @@ func RunMeek(x *Ctx) {
 		runMeekOversized(x)
 		return
 	}
+	if c.Gen == "blocked-write-cut" {
+		runMeekBlockedWrite(x)
+		return
+	}
 	rng := vlib.NewRng(c.Seed)
 	t := transports.Get("meek_lite")
 	if t == nil {
@@ -604,4 +608,176 @@ func runMeekOversized(x *Ctx) {
 	}
 	x.R.Count(c.Prefix()+"/outcome", x.Outcome)
 	x.R.Sample(3, map[string]interface{}{"case": c.Key(), "input": desc, "outcome": x.Outcome, "delivered": delivered, "max_single_read": maxRead, "heap_delta_client": heap})
+}
+
+// MeekBlockedWriteCombos: how the link fails in the generator "blocked-write-cut".
+var MeekBlockedWriteFaults = []string{"reset", "eof", "garbage-then-eof", "reset-during-body"}
+
+// runMeekBlockedWrite: the HTTP round trip in flight stalls (the peer took the request and
+// does not answer), the application keeps writing until the 16-slot write queue is full and one
+// more Write is blocked, and THEN the link fails (reset / EOF / a broken answer) — not a Close by
+// the user.  Oracle: no call panics (the blocked Write runs in the caller's goroutine: a panic
+// there takes the whole proxy down), the blocked Write and every later Write return an error,
+// Read returns an error, and every goroutine of the transport ends.
+func runMeekBlockedWrite(x *Ctx) {
+	c := x.Case
+	rng := vlib.NewRng(c.Seed)
+	fault := MeekBlockedWriteFaults[((c.A%len(MeekBlockedWriteFaults))+len(MeekBlockedWriteFaults))%len(MeekBlockedWriteFaults)]
+	t := transports.Get("meek_lite")
+	cf, _ := t.ClientFactory("")
+	args := &pt.Args{}
+	args.Add("url", "http://meek.invalid/")
+	ca, err := cf.ParseArgs(args)
+	if err != nil {
+		panic(err)
+	}
+	peer := &meekPeer{} // no script, no idle answer: every request stalls
+	conn, err := cf.Dial("tcp", "", peer.dial, ca)
+	if err != nil {
+		x.Outcome = "dial-err:" + ErrClass(err)
+		return
+	}
+	x.Nontrivial = true
+	type wres struct {
+		err   error
+		panic interface{}
+		stack string
+	}
+	// the worker may coalesce up to 17 already queued writes into the request in flight, so the
+	// writer keeps going well beyond 1 + 16 + 1 until it is actually blocked
+	const nWrites = 64
+	results := make(chan wres, nWrites)
+	var done int32
+	var mu sync.Mutex
+	go func() {
+		for i := 0; i < nWrites; i++ {
+			var r wres
+			func() {
+				defer func() {
+					if p := recover(); p != nil {
+						r.panic, r.stack = p, string(debug.Stack())
+					}
+				}()
+				_, r.err = conn.Write(rng.Bytes(1 + rng.Intn(2000)))
+			}()
+			mu.Lock()
+			done++
+			mu.Unlock()
+			results <- r
+			if r.panic != nil {
+				break
+			}
+		}
+		close(results)
+	}()
+	// wait until the write queue is full and the writer has stopped making progress: one Write is
+	// blocked inside enqueueWrite (first write in flight + 16 queued + 1 blocked)
+	deadline := time.Now().Add(20 * time.Second)
+	last, lastChange := int32(-1), time.Now()
+	blocked := false
+	for time.Now().Before(deadline) {
+		_, wr, _ := meeklite.VerifC10Backlog(conn)
+		mu.Lock()
+		d := done
+		mu.Unlock()
+		if d != last {
+			last, lastChange = d, time.Now()
+		}
+		if wr >= 16 && d < nWrites && time.Since(lastChange) > 200*time.Millisecond {
+			blocked = true // queue full, writer not finished and not progressing: it sits in enqueueWrite
+			break
+		}
+		if d >= nWrites {
+			break
+		}
+		time.Sleep(2 * time.Millisecond)
+	}
+	// the link fails
+	peer.mu.Lock()
+	conns := append([]*Conn(nil), peer.conns...)
+	peer.down = true
+	peer.mu.Unlock()
+	for _, pc := range conns {
+		switch fault {
+		case "reset":
+			pc.FeedErr(ErrReset)
+		case "eof":
+			pc.FeedEOF()
+		case "garbage-then-eof":
+			pc.FeedAll(rng.Bytes(1+rng.Intn(200)), nil)
+			pc.FeedEOF()
+		case "reset-during-body":
+			pc.FeedAll([]byte("HTTP/1.1 200 OK\r\nContent-Length: 1000\r\n\r\nabc"), nil)
+			pc.FeedErr(ErrReset)
+		}
+	}
+	// every Write must come back: with an error once the worker is gone, never with a panic
+	okWrites, errWrites := 0, 0
+	timeout := time.After(30 * time.Second)
+collect:
+	for {
+		select {
+		case r, more := <-results:
+			if !more {
+				break collect
+			}
+			if r.panic != nil {
+				site, class := PanicSite(r.panic, r.stack)
+				x.Violate("panic-"+site+"-"+class, fmt.Sprintf("Write panicked in the caller's goroutine when the link failed (%s) while it was blocked on the full write queue: %v\n%s", fault, r.panic, trimStack(r.stack, 1500)))
+			} else if r.err != nil {
+				errWrites++
+			} else {
+				okWrites++
+			}
+		case <-timeout:
+			x.Violate("write-wedged", fmt.Sprintf("a Write blocked on the full queue did not return within 30 s after the link failed (%s); stacks:\n%s", fault, TransportStacks(3000)))
+			break collect
+		}
+	}
+	if blocked && errWrites == 0 && !x.Violated() {
+		x.Violate("write-error-swallowed", fmt.Sprintf("the link failed (%s) with a Write blocked on the full queue, yet all %d writes returned nil", fault, okWrites))
+	}
+	// Read reports the failure too
+	rdone := make(chan error, 1)
+	go func() {
+		defer func() {
+			if p := recover(); p != nil {
+				rdone <- fmt.Errorf("panic: %v", p)
+			}
+		}()
+		buf := make([]byte, 100)
+		for i := 0; i < 40; i++ {
+			if _, err := conn.Read(buf); err != nil {
+				rdone <- err
+				return
+			}
+		}
+		rdone <- nil
+	}()
+	select {
+	case err := <-rdone:
+		if err == nil {
+			x.Violate("read-no-error-after-link-failure", "Read kept succeeding after the link had failed")
+		} else if strings.HasPrefix(err.Error(), "panic:") {
+			x.Violate("panic-Read-explicit", err.Error())
+		}
+	case <-time.After(30 * time.Second):
+		x.Violate("read-wedged", "Read did not return within 30 s after the link failed; stacks:\n"+TransportStacks(3000))
+	}
+	func() {
+		defer func() { recover() }()
+		conn.Close()
+	}()
+	peer.shutdown()
+	left, _ := meekLeft(5 * time.Second)
+	if len(left) > 0 {
+		left, _ = meekLeft(15 * time.Second)
+	}
+	if len(left) > 0 {
+		x.Violate("goroutine-leak-"+leakSite(left[0]), fmt.Sprintf("%d goroutine(s) still running after the link failed and Close:\n%s", len(left), trimStack(left[0], 2000)))
+		MarkLeaked(left)
+	}
+	x.Outcome = fmt.Sprintf("blocked-write-cut-%s:blocked=%v,ok=%s,err>0=%v", fault, blocked, SizeClass(okWrites), errWrites > 0)
+	x.R.Count(c.Prefix()+"/outcome", x.Outcome)
+	x.R.Sample(3, map[string]interface{}{"case": c.Key(), "input": "stalled round trip, writes until one blocks, link fails: " + fault, "outcome": x.Outcome, "ok_writes": okWrites, "err_writes": errWrites})
 }
